@@ -1089,6 +1089,9 @@ def read_emitted(text: str) -> tuple[str, Any] | None:
 	t = text.strip()
 	if len(t) >= 2 and t[0] == '"' and t[-1] == '"':
 		return 'str', t[1:-1]
+	# a negative number is emitted in parentheses since the repair of `-E.M.value` -> `--3` (py2cpp on_relay): `(-3)`
+	if re.fullmatch(r'\(-[^()]+\)', t):
+		t = t[1:-1]
 	try:
 		v = ast.literal_eval(t)
 	except (ValueError, SyntaxError, MemoryError, RecursionError):
